@@ -39,7 +39,11 @@ def seq_job(N, m, ops, kshift):
         boxes = BOXSEQ[N]
         bi = 0
         lower, upper = boxes[0]
-        ev = evo.mk_evolvent(N, m, lower, upper)
+        # the object under test and a BYSTANDER object are built from the same caller-owned float arrays (as Problem classes supply them)
+        la0, ua0 = shims.SArr(lower, 'f'), shims.SArr(upper, 'f')
+        ev = evo.mk_evolvent(N, m, la0, ua0)
+        bystander = evo.mk_evolvent(N, m, la0, ua0)
+        lower0, upper0 = list(lower), list(upper)
         returned = []      # (array object, snapshot of terms)
         last = None
         script = []
@@ -94,6 +98,14 @@ def seq_job(N, m, ops, kshift):
         for (arr, snap, pos) in returned:
             for c in range(N):
                 ex.prove(T(arr[c]) == snap[c], 'RET: array returned by query %d is unchanged by later queries' % pos, {'pos': pos})
+        # ---- another Evolvent built from the same bound arrays, and those arrays, are not affected by anything done to `ev`
+        for c in range(N):
+            ex.prove(z3.And(T(la0[c]) == F(lower0[c]), T(ua0[c]) == F(upper0[c])), 'ARG: the constructor\'s bound arrays are never modified', {'ops': list(ops)})
+        xb = 0.6180339887      # a concrete coordinate: the clause is about aliasing of the bounds, not about the curve
+        rb = bystander.GetImage(xb)
+        eb = evo.mk_evolvent(N, m, lower0, upper0).GetImage(xb)
+        for c in range(N):
+            ex.prove(T(rb[c]) == T(eb[c]), 'PURE: an Evolvent built from the same bound arrays is not affected by queries / SetBounds on another one', {'ops': list(ops), 'bystander': True})
         # ---- the last query agrees with a fresh object
         op, a1, kind, res, _ = last
         fresh = evo.mk_evolvent(N, m, lower, upper)
@@ -164,7 +176,10 @@ N, m, OPS, KSHIFT, MODEL, BOXES = __ARGS__
 KINDS = ('f', 'list', 'i')
 g = lambda k: F(MODEL[k]) if k in MODEL else F(1, 3)
 lower, upper = BOXES[0]; bi = 0
-ev = Evolvent(lower, upper, N, m)
+la0, ua0 = np.array(lower, dtype=np.double), np.array(upper, dtype=np.double)
+lower0, upper0 = list(lower), list(upper)
+ev = Evolvent(la0, ua0, N, m)
+bystander = Evolvent(la0, ua0, N, m)
 bad = []
 returned = []; last = None
 def mk(vals, kind):
@@ -192,6 +207,9 @@ for pos, op in enumerate(OPS):
         last = (op, vals, kind, res)
         if kind != 'list':
             for c in range(N): arg[c] = 77
+if list(la0) != lower0 or list(ua0) != upper0: bad.append('the constructor\'s bound arrays were modified: %r %r' % (list(la0), list(ua0)))
+xb = 0.6180339887
+if list(bystander.GetImage(xb)) != list(Evolvent(lower0, upper0, N, m).GetImage(xb)): bad.append('an Evolvent built from the same bound arrays was affected: GetImage(%r) = %r, fresh object %r' % (xb, list(bystander.GetImage(xb)), list(Evolvent(lower0, upper0, N, m).GetImage(xb))))
 for (arr, snap, pos) in returned:
     if list(arr) != list(snap): bad.append('array returned by query %d changed: %r -> %r' % (pos, list(snap), list(arr)))
 if last is not None:
